@@ -51,7 +51,8 @@ class ValueGen(object):
         self.big = big
         self.pools = {k: [self.fresh(k) for _ in range(r.randrange(3, 9))] for k in TABLES}
         # values that differ in exactly one member / carry the same number in different members (equal hashes)
-        self.pools['sig'] += [{'sport': 53}, {'qrcode': 53}, {'udp': 53}, {'sport': 53, 'qrcode': 53}, {}, {'sai': 0}, {'qcti': 0}, {'optrdi': 0}]
+        self.pools['sig'] += [{'sport': 53}, {'qrcode': 53}, {'udp': 53}, {'sport': 53, 'qrcode': 53}, {}, {'sai': 0}, {'qcti': 0}, {'optrdi': 0},
+                              {'rrcode': 0}, {'sport': 53, 'rrcode': 0}, {'sport': 53, 'rrcode': 53}, {'edns': 0}, {'opcode': 0}, {'tflags': 0}, {'qtype': 0}, {'sigflags': 0}]
         self.pools['rr'] += [{'n': 1, 'c': 1}, {'n': 1, 'c': 1, 'ttl': 0}, {'n': 1, 'c': 1, 'rdi': 0}, {'n': 1, 'c': 1, 'ttl': 0, 'rdi': 0}]
         self.pools['mmd'] += [{}, {'pl': ''}, {'pl': '00'}, {'sport': 7}, {'sai': 7}, {'tf': 7}, {'pl': '616263'}, {'pl': '616263', 'sport': 1}]
         self.pools['qlist'] += [[], [0], [0, 0]]
